@@ -80,7 +80,7 @@ func (f *Do) Call(s *slip.Scope, args slip.List, depth int) (result slip.Object)
 		return loopExit(exit)
 	}
 	for {
-		tv := ns.Eval(test, d2)
+		tv := slip.PrimaryValue(ns.Eval(test, d2))
 		if slip.IsExit(tv) {
 			return loopExit(tv)
 		}
@@ -116,7 +116,7 @@ func (f *Do) Call(s *slip.Scope, args slip.List, depth int) (result slip.Object)
 		}
 		for _, sb := range steps {
 			if !sb.noStep {
-				if sb.result = ns.Eval(sb.step, d2); slip.IsExit(sb.result) {
+				if sb.result = slip.PrimaryValue(ns.Eval(sb.step, d2)); slip.IsExit(sb.result) {
 					return loopExit(sb.result)
 				}
 			}
@@ -171,7 +171,7 @@ func setupDo(
 			if 1 < len(tb) {
 				// Use the original scope to avoid using the new bindings since
 				// they are evaluated in apparent parallel.
-				v := slip.EvalArg(s, tb, 1, depth)
+				v := slip.PrimaryValue(slip.EvalArg(s, tb, 1, depth))
 				if slip.IsExit(v) {
 					return nil, nil, nil, v
 				}
